@@ -63,6 +63,18 @@ CHECKS['C15'] = {
     'note': 'Trusted: A-redb, R4, postcard inverse axiom, Iterator::any/all specs. Text form and reopen not covered.',
     'technique': TECH,
 }
+CHECKS['C03'] = {
+    'text': 'Verus proves on the real text: validate_entry returns Ok iff the namespace matches, the entry is Local or both signatures verify over the canonical bytes of this very entry (Entry::encode proved to write id, len, hash, timestamp), and the timestamp is at most now + ten minutes (constant tied to the real const by Kani); insert_remote_entry returns Ok only for well-formed-empty valid entries and changes nothing otherwise; the validate closure of sync_process_message (lambda-lifted mechanically) accepts exactly the same predicate, so both ingress paths agree.',
+    'design_ref': 'DESIGN.md section 5, C03',
+    'note': 'Trusted: ed25519 as an uninterpreted predicate, clock bound, the gate inside process_message (A-recon-gate).',
+    'technique': TECH,
+}
+CHECKS['C12'] = {
+    'text': 'Direct ingress path: Verus proves on the real text of Replica::insert_entry / insert / delete_prefix / insert_remote_entry, with a ghost event log, that exactly one event carrying the entry is appended iff the put returned Inserted (after the put), marked Local or Remote with the providing peer and content status, no event on any error exit, and the remote download flag equals the policy verdict (policy read once, default on error).',
+    'design_ref': 'DESIGN.md section 5, C12',
+    'note': 'Trusted: Subscribers::send as ghost log append, store shells. Reconciliation path events and channel bookkeeping are not covered.',
+    'technique': TECH,
+}
 NOT_APPLICABLE = {
     'C01': 'whole-session convergence of the generic async reconciliation routine (GAT iterators, three closures, FuturesOrdered) is a protocol proof over message histories, outside function contracts; Verus cannot take process_message, Kani cannot run the redb store or Bytes',
     'C04': 'statement over interleavings/histories of 2..5 replicas with lossy gossip and restarts; no function or data structure whose contract expresses it',
